@@ -83,14 +83,14 @@ func (a Bool) M__eq__(other Object) (Object, error) {
 	if b, ok := convertToBool(other); ok {
 		return NewBool(a == b), nil
 	}
-	return False, nil
+	return NotImplemented, nil
 }
 
 func (a Bool) M__ne__(other Object) (Object, error) {
 	if b, ok := convertToBool(other); ok {
 		return NewBool(a != b), nil
 	}
-	return True, nil
+	return NotImplemented, nil
 }
 
 func notEq(eq Object, err error) (Object, error) {
